@@ -164,7 +164,7 @@ Qed.
 Definition maybe_label (L : list N) (st : astate) (q : N) : astate :=
   match index_of q L 0 with Some idx => with_label st idx | None => st end.
 Definition step_instr (L : list N) (st : astate) (p : N) (i : instr) : astate :=
-  upd (maybe_label L st p) (op i :: zenc (kinds_of (op i)) (args i))
+  upd (maybe_label L st p) (op i :: zenc L p (kinds_of (op i)) (args i))
       (mk_patches L (a_cur st) p (p + 1) (kinds_of (op i)) (args i)).
 Fixpoint sim (L : list N) (st : astate) (D : list (N * instr)) : astate :=
   match D with [] => st | (p, i) :: D' => sim L (step_instr L st p i) D' end.
@@ -204,15 +204,16 @@ Proof.
   - cbn [andb]. apply IH. intros l' Hl'. apply H. right. exact Hl'.
 Qed.
 
-Lemma zenc_len ks : forall vs, length vs = length ks -> lenN (zenc ks vs) = lenN (enc_of ks vs).
+Lemma zenc_len L p ks : forall vs, length vs = length ks -> lenN (zenc L p ks vs) = lenN (enc_of ks vs).
 Proof.
   induction ks as [|k ks IH]; intros [|v vs] H; cbn [length] in H; try discriminate; [reflexivity|].
   cbn [zenc enc_of]. rewrite !lenN_app, zenc1_len, IH by lia. unfold lenN at 2. rewrite le_bytes_length. reflexivity.
 Qed.
-Lemma mk_patches_len L cur start ks : forall vs off, length vs = length ks -> lenN (mk_patches L cur start off ks vs) = count_i32 ks.
+Lemma mk_patches_len L cur start ks : forall vs off, length vs = length ks -> lenN (mk_patches L cur start off ks vs) <= count_i32 ks.
 Proof.
-  induction ks as [|k ks IH]; intros [|v vs] off H; cbn [length] in H; try discriminate; [reflexivity|].
-  cbn [mk_patches]. rewrite lenN_app, patch1_len, count_i32_cons, IH by lia. reflexivity.
+  induction ks as [|k ks IH]; intros [|v vs] off H; cbn [length] in H; try discriminate.
+  cbn [mk_patches]. rewrite lenN_app, count_i32_cons. pose proof (patch1_len L cur start off k v).
+  assert (Hl : length vs = length ks) by lia. specialize (IH vs (off + N.of_nat (ksize k)) Hl). lia.
 Qed.
 Lemma args_ok_length L p ks : forall vs, args_ok L p ks vs -> length vs = length ks.
 Proof.
@@ -260,8 +261,8 @@ Proof.
 Qed.
 
 Lemma ienc_len i ks : T (op i) = Some ks -> length (args i) = length ks ->
-  lenN (ienc i) = 1 + lenN (zenc ks (args i)).
-Proof. intros HT Hl. unfold ienc. rewrite ((LL kinds_of_T) _ _ HT), lenN_cons, zenc_len by exact Hl. reflexivity. Qed.
+  forall L p, lenN (ienc i) = 1 + lenN (zenc L p ks (args i)).
+Proof. intros HT Hl L p. unfold ienc. rewrite ((LL kinds_of_T) _ _ HT), lenN_cons, zenc_len by exact Hl. reflexivity. Qed.
 
 Lemma run_body m L cur : lenN L <= max_disasm_labels -> forall D st p e,
   chain p D e -> a_in_fn st = true -> a_cur st = cur -> a_size st = p ->
@@ -291,7 +292,7 @@ Proof.
     { rewrite F4. cbn [total_i32 fold_right snd] in Hpat. rewrite ((LL kinds_of_T) _ _ HT) in Hpat. lia. }
     rewrite ((LL process_instr) st1 L i ks Hin1 HT Haok1 HL Hp1).
     pose proof (args_ok_length L _ _ _ Haok) as Hlen.
-    assert (Esz : a_size st + lenN (ienc i) = a_size st + 1 + lenN (zenc ks (args i))) by (rewrite (ienc_len i ks HT Hlen); lia).
+    assert (Esz : a_size st + lenN (ienc i) = a_size st + 1 + lenN (zenc L (a_size st) ks (args i))) by (rewrite (ienc_len i ks HT Hlen L (a_size st)); lia).
     change (flat_map (fun pi => lbl_lines L (fst pi) ++ [32 :: 32 :: name_bytes (op (snd pi)) ++ fmt_operands m L (fst pi) (op (snd pi)) 0 (kinds_of (op (snd pi))) (args (snd pi))]) D ++ lbl_lines L e)
       with (printed_lines m L D e).
     rewrite (IH _ (a_size st + lenN (ienc i)) e Hch').
@@ -302,18 +303,18 @@ Proof.
     + exact Hok'.
     + intros l Hl Hfn. unfold upd in Hl. cbn [a_labels] in Hl.
       apply (lab_inv_label L (a_cur st) st (a_size st) (a_size st + lenN (ienc i))); try assumption; try reflexivity.
-      rewrite (ienc_len i ks HT Hlen). lia.
+      rewrite (ienc_len i ks HT Hlen L (a_size st)). lia.
     + unfold upd. cbn [a_labels]. rewrite F7. cbn [map app filter fst] in Hlab.
       destruct (mem_N (a_size st) L); unfold lenN in *; cbn [length] in *. all: lia.
-    + unfold upd. cbn [a_patches]. rewrite lenN_app, F4, mk_patches_len by exact Hlen.
+    + unfold upd. cbn [a_patches]. rewrite lenN_app, F4. pose proof (mk_patches_len L (a_cur st1) (a_size st1) ks (args i) (a_size st1 + 1) Hlen).
       cbn [total_i32 fold_right snd] in Hpat. rewrite ((LL kinds_of_T) _ _ HT) in Hpat. fold (total_i32 D) in Hpat. lia.
 Qed.
 
 (* ---------------------------------------------------------------- what the final state contains *)
 Definition all_patches (L : list N) (cur : N) (D : list (N * instr)) : list patch :=
   flat_map (fun pi => mk_patches L cur (fst pi) (fst pi + 1) (kinds_of (op (snd pi))) (args (snd pi))) D.
-Definition zcode (D : list (N * instr)) : list byte :=
-  flat_map (fun pi => op (snd pi) :: zenc (kinds_of (op (snd pi))) (args (snd pi))) D.
+Definition zcode (L : list N) (D : list (N * instr)) : list byte :=
+  flat_map (fun pi => op (snd pi) :: zenc L (fst pi) (kinds_of (op (snd pi))) (args (snd pi))) D.
 Definition code_of_D (D : list (N * instr)) : list byte := flat_map (fun pi => ienc (snd pi)) D.
 Definition lab1 (L : list N) (cur q : N) : list label :=
   match index_of q L 0 with Some idx => [{| l_name := label_name idx; l_off := q; l_fn := cur |}] | None => [] end.
@@ -331,7 +332,7 @@ Lemma sim_fields L : forall D st p e, chain p D e -> a_size st = p -> Forall (in
   a_in_fn (sim L st D) = a_in_fn st /\ a_cur (sim L st D) = a_cur st /\ a_mod (sim L st D) = a_mod st /\
   a_size (sim L st D) = e /\
   a_patches (sim L st D) = a_patches st ++ all_patches L (a_cur st) D /\
-  rev (a_rcode (sim L st D)) = rev (a_rcode st) ++ zcode D /\
+  rev (a_rcode (sim L st D)) = rev (a_rcode st) ++ zcode L D /\
   a_labels (sim L st D) = a_labels st ++ labs L (a_cur st) (map fst D).
 Proof.
   induction D as [|[p0 i] D IH]; intros st p e Hch Hsz Hok.
@@ -341,7 +342,7 @@ Proof.
     destruct (maybe_label_fields L st (a_size st)) as [F1 [F2 [F3 [F4 [F5 [F6 F7]]]]]].
     cbn [sim]. specialize (IH (step_instr L st (a_size st) i) (a_size st + lenN (ienc i)) e Hch').
     destruct IH as [I1 [I2 [I3 [I4 [I5 [I6 I7]]]]]]; [|exact Hok'|].
-    + unfold step_instr, upd. cbn [a_size]. rewrite F3, ((LL kinds_of_T) _ _ HT), (ienc_len i ks HT Hlen), lenN_cons. lia.
+    + unfold step_instr, upd. cbn [a_size]. rewrite F3, ((LL kinds_of_T) _ _ HT), (ienc_len i ks HT Hlen L (a_size st)), lenN_cons. lia.
     + rewrite I1, I2, I3, I4, I5, I6, I7. unfold step_instr, upd.
       cbn [a_in_fn a_cur a_mod a_patches a_rcode a_labels]. rewrite F1, F2, F4, F5, F6.
       rewrite (maybe_label_labels_eq L st (a_size st) eq_refl).
@@ -416,14 +417,15 @@ Hypothesis Hfind : forall t idx, index_of t L 0 = Some idx -> In t bnd ->
 
 Lemma resolve_operands start : start < 4294967296 -> forall ks vs pre rest off,
   AsmLine.args_ok good L start ks vs -> lenN pre = off ->
-  resolve (mk_patches L cur start off ks vs) LS cur (pre ++ zenc ks vs ++ rest) = Some (pre ++ enc_of ks vs ++ rest).
+  resolve (mk_patches L cur start off ks vs) LS cur (pre ++ zenc L start ks vs ++ rest) = Some (pre ++ enc_of ks vs ++ rest).
 Proof.
   intros Hst. induction ks as [|k ks IH]; intros [|v vs] pre rest off Hok Hpre; cbn [AsmLine.args_ok] in Hok; try contradiction.
   - reflexivity.
-  - destruct Hok as [[Hv [Hl _]] Hr]. cbn [mk_patches zenc enc_of]. unfold patch1, zenc1.
-    destruct (okind_eqb k KI32) eqn:Ek.
-    + assert (k = KI32) by (destruct k; try discriminate Ek; reflexivity). subst k.
-      specialize (Hl eq_refl). rewrite pow256 in Hv.
+  - destruct Hok as [[Hv _] Hr]. cbn [mk_patches zenc enc_of]. unfold patch1, zenc1, labelled.
+    destruct (okind_eqb k KI32 && mem_N (u32 (start + v)) L) eqn:Ek.
+    + apply andb_true_iff in Ek. destruct Ek as [Ek Hl].
+      assert (k = KI32) by (destruct k; try discriminate Ek; reflexivity). subst k.
+      rewrite pow256 in Hv.
       cbn [app resolve p_fn p_label p_code_off p_start]. rewrite N.eqb_refl. cbn [negb].
       destruct (mem_index _ L 0 Hl) as [idx Ei].
       destruct (Hfind _ idx Ei (HLbnd _ (mem_N_In _ _ Hl))) as [l [Efl Eoff]].
@@ -440,7 +442,7 @@ Proof.
 Qed.
 
 Lemma resolve_all : forall D p e pre, chain p D e -> e < 4294967296 -> Forall (instr_ok L) D -> lenN pre = p ->
-  resolve (all_patches L cur D) LS cur (pre ++ zcode D) = Some (pre ++ code_of_D D).
+  resolve (all_patches L cur D) LS cur (pre ++ zcode L D) = Some (pre ++ code_of_D D).
 Proof.
   induction D as [|[p0 i] D IH]; intros p e pre Hch He Hok Hpre.
   - reflexivity.
@@ -449,16 +451,16 @@ Proof.
     assert (Hle : forall p D e, chain p D e -> p <= e).
     { clear. intros p D e H. induction H; lia. }
     pose proof (Hle _ _ _ Hch') as Hpe.
-    cbn [all_patches zcode code_of_D flat_map fst snd]. fold (all_patches L cur D). fold (zcode D). fold (code_of_D D).
+    cbn [all_patches zcode code_of_D flat_map fst snd]. fold (all_patches L cur D). fold (zcode L D). fold (code_of_D D).
     rewrite resolve_app by reflexivity. unfold ienc. rewrite ((LL kinds_of_T) _ _ HT).
-    replace (pre ++ (op i :: zenc ks (args i)) ++ zcode D) with ((pre ++ [op i]) ++ zenc ks (args i) ++ zcode D)
+    replace (pre ++ (op i :: zenc L (lenN pre) ks (args i)) ++ zcode L D) with ((pre ++ [op i]) ++ zenc L (lenN pre) ks (args i) ++ zcode L D)
       by (rewrite <- app_assoc; reflexivity).
     rewrite (resolve_operands (lenN pre)); [| |exact Haok|].
-    + replace ((pre ++ [op i]) ++ enc_of ks (args i) ++ zcode D) with ((pre ++ op i :: enc_of ks (args i)) ++ zcode D)
+    + replace ((pre ++ [op i]) ++ enc_of ks (args i) ++ zcode L D) with ((pre ++ op i :: enc_of ks (args i)) ++ zcode L D)
         by (rewrite <- !app_assoc; reflexivity).
       rewrite (IH (lenN pre + lenN (ienc i)) e); [rewrite <- !app_assoc; reflexivity|exact Hch'|exact He|exact Hok'|].
       rewrite lenN_app. unfold ienc. rewrite ((LL kinds_of_T) _ _ HT). reflexivity.
-    + rewrite (ienc_len i ks HT Hlen) in Hpe. lia.
+    + rewrite (ienc_len i ks HT Hlen L (lenN pre)) in Hpe. lia.
     + rewrite lenN_app. reflexivity.
 Qed.
 End Resolve.
